@@ -1,7 +1,6 @@
 package core
 
 import (
-	"sync/atomic"
 	"encoding/json"
 	"fmt"
 	"os"
@@ -9,6 +8,7 @@ import (
 	"path/filepath"
 	"sort"
 	"strings"
+	"sync/atomic"
 	"time"
 )
 
@@ -65,7 +65,7 @@ type agg struct {
 	Runs       int            `json:"runs"`
 	Overruns   int            `json:"overruns"`
 	Restarted  int            `json:"restarted"` // worker processes that died without a verdict and were run again
-	Retired    int            `json:"retired"` // workers that stopped early after a run whose goroutines did not exit (engine B)
+	Retired    int            `json:"retired"`   // workers that stopped early after a run whose goroutines did not exit (engine B)
 	Ops        int            `json:"ops"`
 	Steps      int            `json:"steps"`
 	SimNanos   int64          `json:"sim_nanos"`
